@@ -31,18 +31,28 @@ func main() {
 	} else {
 		corpus(w)
 		na, nc, no := 2000, 1200, 1200
+		np, ncp := 900, 400 // scripts / calls reached through generated call paths
 		if a.Tier == "thorough" {
 			na, nc, no = 40000, 20000, 30000
+			np, ncp = 30000, 10000
 		}
 		for i := 0; i < na; i++ {
 			d := i % 5
-			runApi(w, genApi(r.Fork(), d), fmt.Sprintf("api/depth%d", d))
+			runApi(w, genApi(r.Fork(), d, false), fmt.Sprintf("api/depth%d", d))
+		}
+		for i := 0; i < np; i++ {
+			d := 1 + i%6
+			runApi(w, genApi(r.Fork(), d, true), fmt.Sprintf("api-path/depth%d", d))
+		}
+		for i := 0; i < ncp; i++ {
+			in := genCall(r.Fork(), 1+i%6, true)
+			runCall(w, in, "call-path/"+in.Via+"/"+in.Callee)
 		}
 		if a.Tier == "thorough" {
 			exhaustiveApi(w)
 		}
 		for i := 0; i < nc; i++ {
-			in := genCall(r.Fork(), i%5)
+			in := genCall(r.Fork(), i%5, false)
 			runCall(w, in, "call/"+in.Via+"/"+in.Callee)
 		}
 		for i := 0; i < nc/20; i++ {
@@ -110,6 +120,13 @@ func corpus(w *lib.Writer) {
 			{K: "replace", I: 0, V: 8}, {K: "replace", I: -7, V: 8}, {K: "replace", I: 7, V: 8}, {K: "settop", I: -7}, {K: "settop", I: -8}, {K: "push", V: 1}, {K: "settop", I: 3}, {K: "pop", I: 4}}}, "corpus/boundary")
 		runApi(w, ApiIn{Kind: "api", Depth: d, Locals: []int{100, 100, 100, 100, 100}, Init: []int{1}, Reg: RegOpt{Size: 128, Max: 1024, Grow: 1}, Ops: []AOp{
 			{K: "push", V: 2}, {K: "push", V: 3}, {K: "settop", I: 30}, {K: "insert", I: 1, V: 4}, {K: "remove", I: 2}, {K: "settop", I: 1}, {K: "gettop"}}}, "corpus/grow")
+	}
+	// seeded C10-10: dead temporaries of a Lua caller (left above the frame of a fixed-arity Lua callee) must not be
+	// visible above the list of the host function that callee calls
+	for i, how := range []string{"table", "concat", "block", "loop", "args"} {
+		runApi(w, ApiIn{Kind: "api", Depth: 2, Path: stalePath(i, 8+i, how, i%2), Init: []int{11}, Reg: RegOpt{Size: 256}, Ops: []AOp{
+			{K: "get", I: 2}, {K: "get", I: 3}, {K: "get", I: 6}, {K: "gettop"}, {K: "settop", I: 4}, {K: "get", I: 5}, {K: "settop", I: 1}, {K: "push", V: 5}, {K: "get", I: 3},
+			{K: "call", C: "lua", Via: "cbpp", N: 1, J: 2, P: 2, I: 3}, {K: "get", I: 6}, {K: "get", I: 8}, {K: "call", C: "reenter", Via: "pcall", N: 2, P: 1, I: 1, F: true}, {K: "get", I: 6}, {K: "pop", I: 2}, {K: "get", I: 4}}}, "corpus/stale-above-top")
 	}
 	// C10-2 (open finding): ObjLen of a userdata without __len; and Concat() without operands (fixed b70edf8)
 	runObj(w, ObjIn{Kind: "obj", Op: "objlen", A: Operand{"newud(MT2)"}, B: Operand{"nil"}, K: Operand{"nil"}, V: Operand{"nil"}, MT1: 64, MT2: 1, Same: true}, "corpus/C10-2")
